@@ -611,3 +611,58 @@ def w8(ctx):
 
 
 RULES.append(w8)
+
+
+@rule("W9", doc="take / restore window: while a function holds a value it took out of an Option field of the e-graph (`eg.subst_method.take().unwrap()` .. `eg.subst_method = Some(..)`), it calls nothing that can reach another access of that field — a re-entrant take finds None and panics")
+def w9(ctx):
+    crate = ctx.lib()
+    n = 0
+    for b in crate.fns():
+        if not (b.file or "").startswith("src/") or (b.file or "").endswith("/check.rs"):
+            continue
+        for sub in b.all_bodies():
+            d = sub.defs()
+            for c in sub.calls:
+                if sub.blocks[c.bb]["cleanup"] or not c.callee or c.callee.name not in ("take", "replace") or not c.args:
+                    continue
+                if not ("option::Option" in (c.callee.target or "") or "mem::" in (c.callee.target or "")):
+                    continue
+                a = c.args[0]
+                pl = mir.op_place(a)
+                fld = None
+                if pl is not None and not pl["p"]:
+                    for df in d.get(pl["l"], []):
+                        if df["kind"] == "assign" and df["rv"]["k"] == "ref" and df["rv"].get("mut"):
+                            for p in df["rv"]["pl"]["p"]:
+                                if isinstance(p, dict) and "f" in p and p.get("adt") in (C.EGRAPH, C.ECLASS):
+                                    fld = (p["adt"], p["f"])
+                if fld is None:
+                    continue
+                # restore sites: stores to the same field in this body
+                restores = {bi for bi, si, s in sub.statements() if s["k"] == "assign" and mir.place_has_field(s["lhs"], fld[0], fld[1])}
+                if not restores:
+                    continue            # a plain take (the value is consumed): nothing is held
+                window = sub.reach(sub.after(c.bb), avoid=restores)
+                window = {x for x in window if isinstance(x, int)}
+                # everything that can reach an access of the field
+                touch = set(crate.field_readers(*fld)) | set(crate.field_writers(*fld))
+                n += 1
+                bad = []
+                for c2 in sub.calls:
+                    if c2.bb not in window or sub.blocks[c2.bb]["cleanup"] or not c2.callee or c2 is c:
+                        continue
+                    tgts = [c2.callee.target] if c2.callee.target in crate.bodies else [x.id for x in crate._impls_for_unresolved(c2.callee.target)]
+                    for t in tgts:
+                        r = crate.reachable_from([t])
+                        if r & touch:
+                            bad.append((c2, sorted(C.short(x) for x in r & touch)[:3]))
+                ctx.check(not bad, "held-value-window:%s:%s" % (C.fkey(b), fld[1]), "%s calls nothing that reaches %s.%s between taking the value out and putting it back" % (C.short(b.id), fld[0].split("::")[-1], fld[1]),
+                          "%s calls %s while it holds the value it took out of %s.%s (the field is None until it is restored); that call can reach %s, which accesses the field again — a nested use (e.g. a substitution inside a substitution) unwraps None and panics" % (
+                              C.short(b.id), ", ".join(sorted({x[0].callee.name for x in bad})), fld[0].split("::")[-1], fld[1], "; ".join(sorted({y for x in bad for y in x[1]}))[:200]),
+                          where_of(sub, bad[0][0].bb if bad else c.bb))
+    # (no floor: the take / restore pair may legitimately move into a helper or disappear; the rule is about windows that exist)
+    if n == 0:
+        ctx.ok("held-value-window:none", "no function takes a value out of an Option field of the e-graph and puts it back later")
+
+
+RULES.append(w9)
